@@ -89,9 +89,16 @@ def crash_cases(rng, tier):
                 l += ['cr_reopen ro', 'cr_reopen ow']
                 cases.append(Case(l, 'gen:crash-unpromised'))
                 continue
-            l.append('cr_in dump')
             act = rng.choice(['fflush', 'fflush', 'fclose', 'fdrop'])
+            # flush, then overwrite existing attributes in place (same length: the file does not grow), flush again: the second
+            # flush promises the overwritten values
+            inplace = [m[1] for m in made if m[2] in 'BSATMGO']
+            inplace = rng.choice(inplace) if (inplace and act == 'fflush' and rng.random() < 0.35) else None
+            if inplace: l.append('cr_in set %s definition %s' % (inplace, S('value one')))
+            l.append('cr_in dump')
             l.append('cr_in ' + act)
+            if inplace:
+                l += ['cr_in set %s definition %s' % (inplace, S('value TWO')), 'cr_in dump', 'cr_in fflush']
             if act == 'fflush' and rng.random() < 0.3:
                 l.append('cr_in fflush')
             # read-only activity between the flush / close and the kill
